@@ -496,3 +496,94 @@ func stripKey(v any, key string) {
 		}
 	}
 }
+
+// Node is one object of a raw document with the kind the meta-model assigns to its position.
+type Node struct {
+	Ptr    []string
+	Kind   string
+	Parent string   // "<ParentKind>.<field>" ("" for the root)
+	Chain  []string // every "<Kind>.<field>" step from the root to this node
+	Obj    map[string]any
+}
+
+// Nodes lists every object node of a raw document whose kind is known from its position.
+// Reference objects ({"$ref": ...}) get the kind "Ref:<Kind>".
+func (m *Model) Nodes(doc map[string]any) []Node {
+	var out []Node
+	var visitType func(v any, typ, parent string, ptr []string)
+	visitObj := func(v any, kind, parent string, ptr []string) {
+		obj, ok := v.(map[string]any)
+		if !ok {
+			return
+		}
+		k := m.Kinds[kind]
+		if k == nil {
+			return
+		}
+		out = append(out, Node{Ptr: append([]string(nil), ptr...), Kind: kind, Parent: parent, Obj: obj})
+		if k.MapLike != "" {
+			for _, key := range jv.Keys(obj) {
+				if strings.HasPrefix(key, "x-") {
+					continue
+				}
+				visitType(obj[key], strings.TrimSuffix(k.MapLike, "*"), kind+".*", append(ptr, key))
+			}
+			return
+		}
+		for _, f := range k.Fields {
+			if fv, ok := obj[f.Name]; ok {
+				visitType(fv, f.Type, kind+"."+f.Name, append(ptr, f.Name))
+			}
+		}
+	}
+	visitType = func(v any, typ, parent string, ptr []string) {
+		switch {
+		case typ == "apb":
+			if _, ok := v.(map[string]any); ok {
+				visitType(v, "R:"+m.SchemaKind, parent, ptr)
+			}
+		case strings.HasPrefix(typ, "[R:"), strings.HasPrefix(typ, "["):
+			inner := typ[1 : len(typ)-1]
+			if l, ok := v.([]any); ok {
+				for i, e := range l {
+					visitType(e, inner, parent, append(ptr, fmt.Sprint(i)))
+				}
+			}
+		case strings.HasPrefix(typ, "{R:"), strings.HasPrefix(typ, "{"):
+			inner := typ[1 : len(typ)-1]
+			if mm, ok := v.(map[string]any); ok {
+				for _, key := range jv.Keys(mm) {
+					visitType(mm[key], inner, parent, append(ptr, key))
+				}
+			}
+		case strings.HasPrefix(typ, "R:"):
+			if obj, ok := v.(map[string]any); ok {
+				if _, isRef := obj["$ref"]; isRef {
+					out = append(out, Node{Ptr: append([]string(nil), ptr...), Kind: "Ref:" + typ[2:], Parent: parent, Obj: obj})
+					return
+				}
+			}
+			visitObj(v, typ[2:], parent, ptr)
+		default:
+			if _, known := m.Kinds[typ]; known {
+				visitObj(v, typ, parent, ptr)
+			}
+		}
+	}
+	visitObj(doc, m.Root, "", nil)
+	// chains: the parent steps of every prefix of the pointer that is itself a node
+	byPtr := map[string]string{}
+	for _, n := range out {
+		byPtr[strings.Join(n.Ptr, "\x00")] = n.Parent
+	}
+	for i := range out {
+		var chain []string
+		for l := 1; l <= len(out[i].Ptr); l++ {
+			if p, ok := byPtr[strings.Join(out[i].Ptr[:l], "\x00")]; ok && p != "" {
+				chain = append(chain, p)
+			}
+		}
+		out[i].Chain = chain
+	}
+	return out
+}
